@@ -114,6 +114,25 @@ theorem control_block_external_pubkey (H : Hashes) {t : Tree} {P : Pt} {x : Leaf
   refine ⟨Q, by simp [Tree.externalPubkey, hr, hq], ?_, hpar, hver, hint⟩
   simp [ControlBlock.externalPubkey, hm, hint, hq]
 
+/-! ## object state: the `_leaves` memo -/
+
+/-- **the only cache of taproot.py is transparent.**  `TapBranch.leaves()` memoises its answer on the node.  On
+    an object satisfying the invariant "every stored list is the node's leaf list" — in particular on a freshly
+    built tree — every call returns the leaf list of the (unchanged) tree and keeps the invariant; so every method
+    that consults `leaves()` (`path_hashes`, `control_block`) answers as the memo-free model does, in any order
+    and any number of times.  Nothing else is kept on a tree: `external_pubkey` and `control_block` are functions
+    of their arguments (the object-reuse histories of the harness test exactly that). -/
+theorem leaves_memo_transparent (t : MTree) (h : t.MemoOK) :
+    t.leavesM.1 = t.erase.leaves ∧ t.leavesM.2.erase = t.erase ∧ t.leavesM.2.MemoOK :=
+  MTree.leavesM_spec t h
+
+/-- a fresh object satisfies the invariant, and any number of calls in a row return the same list -/
+theorem leaves_memo_history (t : Tree) (n : Nat) :
+    (MTree.fresh t).MemoOK ∧ (MTree.leavesIter n (MTree.fresh t)).1 = List.replicate n t.leaves := by
+  refine ⟨MTree.memoOK_fresh t, ?_⟩
+  have := (MTree.leavesIter_spec n (MTree.fresh t) (MTree.memoOK_fresh t)).1
+  rwa [MTree.erase_fresh] at this
+
 /-! ## control block codec -/
 
 /-- **parse ∘ serialize**: an even leaf version below 256, a parity bit, at most 128 hashes of 32 bytes
